@@ -508,6 +508,10 @@ def run(ctx, progs):
     r08b(ctx, P)
     r08c(ctx, P)
     r08d(ctx, P)
+    from sa.rules.common import column_slots_rule
+    column_slots_rule(ctx, P, "R08.e")
+    from sa.rules.C15 import path_threading_rule
+    path_threading_rule(ctx, P, "R08.f", scope=("query::filters", "index::segment"), floor=6)
     ctx.assumptions += ["the object indices and parent links stored in the nested columns are those of the document (written by the segment build; "
                         "their agreement with the reader's type table is checked under C17 R17.c)",
                         "everything else in the statement (multi-valued semantics, nested-in-nested binding across several levels, And/Or/Not "
